@@ -110,6 +110,12 @@ def bases(tier):
     for _, n_ in gtree.walk(gx):
         n_["extras"] = [["{http://www.w3.org/XML/1998/namespace}lang", "en"], ["{urn:u1}kind", "k"], ["p:x", "w"]]
     out.append(("extras-in-clark-notation", gx, 3))
+    g_ = from_listspec(["dataset", None, {"xml:lang": "en", "xml:id": "d1", "xmlns:foo": "urn:foo"},
+                        [["title", "t", {"xml:lang": "fr", "lang": "de"}, []],
+                         ["abstract", None, {}, [["para", "one two three four five six", {}, []]]],
+                         ["methods", None, {}, [["methodStep", None, {}, [["description", None, {}, []]]],
+                                                ["methodStep", None, {}, [["description", None, {}, [["para", "x y", {}, []]]]]]]]]])
+    out.append(("xml-prefixed-plain-attributes+short-abstract", gtree.assign_ids(g_), 3))
     # invalid trees (validators take their error branches)
     out.append(("invalid:unknown", gtree.assign_ids(from_listspec(
         ["dataset", "oops", {"zz": "1"}, [["zzUnknown", "x", {}, [["title", None, {}, []]]], ["title", None, {}, []],
@@ -504,6 +510,13 @@ def explore(tier):
         else:
             items.append((label, g, k, None))
     items.sort(key=lambda it: -gtree.gsize(it[1]) * (len(names) ** (it[2] - 1)))
+    # one item of every base goes to the front: the first items of the list are the first items of their worker blocks, so
+    # every base is also driven once from the pristine process image (baselines taken before anything else ran)
+    seen_, front, rest_ = set(), [], []
+    for it in items:
+        (front if it[0] not in seen_ else rest_).append(it)
+        seen_.add(it[0])
+    items = front + rest_
     accs = core.pmap(work, items)
     acc = core.merge_all(accs)
     napp = acc.counts.get("operation_applications", 0)
